@@ -35,7 +35,7 @@ BOUNDARY = [0, 1, -1, 2, 7, 8, 9, 63, 64, 255, 256, -128, -129, -255, -256, 3276
 # values for every count / size / alignment / address position (the assembler itself has to refuse the absurd ones)
 HUGE = ["1 _ 50", "1 _ 40", "1 _ 20", "1 _ 100", "4294967296.", "4294967295.", "2147483648.", "65535.", "65536.", "65537.", "177777", "200000", "100000",
         "-1", "-65536.", "-(1 _ 50)", "0x7fffffff", "0xffffffffffff", "32768.", "1 _ 17 - 1", "(1 _ 50) / 3", "3000.", "40000."]
-SHIFT_COUNTS = [0, 1, 2, 3, 7, 8, 15, 16, 17, 31, 32, 33, 64, 100, 4096, -1, -2, -16]
+SHIFT_COUNTS = [0, 1, 2, 3, 7, 8, 15, 16, 17, 31, 32, 33, 64, 100, 4096, -1, -2, -16, 65535, 65536, 65537, -65536, -65537, 2 ** 32, -2 ** 32, 2 ** 64, 2 ** 100]
 
 
 def _tables():
@@ -724,6 +724,7 @@ class Gen:
             "backward-skip": lambda: r.choice([".link 1000\nnop\n. = 1000", ".link 1000\n. = 777", ".link 1000\n.blkb 10\n. = . - 4", ".link 1000\n. = -1", ".link 1000\n. = 200000", ".link 1000\n. = fwd\nfwd = 500"]),
             "end-variants": lambda: r.choice([".end\n)))", ".end 1", "end", ".repeat 2 { .end }\nnop", ".end\n.end", ".once\n.once", ".END\n\"", ".end ; c\n'", "nop\n.end\n.word ("]),
             "extern-misuse": lambda: r.choice([".extern 5", ".extern", ".extern all, all", ".extern a+b", ".extern \"a\"", ".extern (a)", ".extern all\nea:\neb = 1", ".extern .", ".extern r0", ".extern 1$", ".extern -a", ".extern a b"]),
+            "huge-shift": lambda: self.huge_shift(),
             "extern-undefined": lambda: self.extern_undefined(),
             "huge-count": lambda: self.huge_count(),
             "include-graph": lambda: self.include_graph(),
@@ -737,6 +738,21 @@ class Gen:
                                                            "(1)(2)", "<1>(2)", "(1)<2>", "<1><2>", "1(2)(3)", "^/1/(2)", "(1", "1)", "<1", "1>", "(1>", "<1)", "^/1", "^/1)", "(^/1)/", "a(", "a()", "a(,)", "(,)", "(;)", "<;>", "(\n1\n)", "<1\n>", "1 +\n2", "(1 + ; c\n 2)"]),
         }
         return F
+
+    def huge_shift(self):
+        """shift counts around and far beyond the assembler's own bound (2**16), through << _ >>, positive and negative, as constants,
+        constant symbols and forward symbols: must be ok or a reported error, quickly"""
+        r = self.r
+        v = r.choice(["65535.", "65536.", "65537.", "200000", "(1 _ 40)", "4294967296.", "18446744073709551616.", "(1 _ 144)", "1 _ 20", "0xffffffffffffffffffff"])
+        if self.p(0.4):
+            v = "-" + v if v[0] != "(" else "-" + v
+        op = r.choice(["<<", "_", ">>", "<<", "_"])
+        a = r.choice(["1", "0", "-1", "3", ".", "lhs1", "65535."])
+        e = f"{a} {op} {v}" if not v.startswith("-") else f"{a} {op} ({v})"
+        s = self.fresh("sh")
+        T = [f".word {e}", f".byte {e}", f"mov #<{e}>, r0", f".blkb {e}", f"{s} = {e}", f"{s} = {e}\n.word {s} & 1", f"{s} = {v}\n.word {a} {op} {s}", f".word {a} {op} {s}\n{s} = {v}",
+             f".word ({e}) >> {v.lstrip('-')}", f".word ({e}) / ({e})", f".repeat {e} {{ }}", f".align {e}", f". = {e}", f".link {e}", f".ascii <{e}>", f"br . + ({e})", f".word {e}, {e}", f"lhs1 = 5\n.word {e}"]
+        return r.choice(T)
 
     def extern_undefined(self):
         """'.extern NAME' where NAME is never defined as a global symbol of the declaring file, together with a reference to NAME that its
